@@ -8,3 +8,5 @@ import PlcProofs.Props.C06
 #print axioms C06.recursive_stage_perm
 #print axioms C06.site_rules_perm
 #print axioms C06.verdict_perm_partial
+#print axioms C06.verdict_perm
+#print axioms C06.codes_perm
